@@ -129,7 +129,8 @@ func runC10(tier string) int {
 func runC07(tier string) int {
 	quick := tier == "quick"
 	col := ev.NewCollector("C07", tier, "exploration")
-	dl := ev.NewDeadline(ev.EnvDur("VERIF_BUDGET", map[bool]time.Duration{true: 300 * time.Second, false: 20 * time.Minute}[quick]))
+	budget := ev.EnvDur("VERIF_BUDGET", map[bool]time.Duration{true: 600 * time.Second, false: 20 * time.Minute}[quick])
+	start := time.Now()
 	engines := []string{"mem-skiplist", "pebble"}
 	maxLen := 3
 	if quick {
@@ -144,6 +145,11 @@ func runC07(tier string) int {
 		v    common.DataVersionT
 	}{{"wait_compact", common.WaitCompact, common.ValueHeaderV1}, {"local_deletion", common.LocalDeletion, common.DefaultDataVer}} {
 		t0 := time.Now()
+		// the first policy may use half of the budget, the second what is left
+		dl := ev.NewDeadline(budget - time.Since(start))
+		if p.name == "wait_compact" {
+			dl = ev.NewDeadline(budget / 2)
+		}
 		st, ok := storevc.RunDeterminism(col, engines, p.name, p.p, p.v, maxLen, dl)
 		logs += st.Logs
 		runs += st.Runs
